@@ -91,6 +91,25 @@ def nodesRow (ny k : Nat) : Nat := k % (3 * ny)
 def nodesCol (nx ny k : Nat) : Nat := if k < 3 * ny then k else k - 3 * ny + (nx - 1) * (3 * ny)
 def nodesVal [One K] (ny : Nat) (w : K) (k : Nat) : K := if k < 3 * ny then 1 - w else w
 
+/-- `CollocationPoints.setup`: entry `k < 4 m`, `m = 3 (nx − 1)(ny − 1)`, of the declared `rows`, `cols`, `val` of
+`d coll_pts / d mesh`, `d force_pts / d mesh`, `d bound_vecs / d mesh` of one surface whose panels start at flattened output index
+`off = 3 · ind_eval_points_1`: four blocks (`mesh[:-1, :-1]`, `mesh[1:, :-1]`, `mesh[:-1, 1:]`, `mesh[1:, 1:]`), the same `rows` in each -/
+def collRow (nx ny off k : Nat) : Nat := off + k % (3 * ((nx - 1) * (ny - 1)))
+def collCol (nx ny k : Nat) : Nat :=
+  let m := 3 * ((nx - 1) * (ny - 1))
+  let b := k / m
+  let l := k % m
+  ((l / 3 / (ny - 1) + (if b % 2 = 1 then 1 else 0)) * ny + (l / 3 % (ny - 1) + (if 2 ≤ b then 1 else 0))) * 3 + l % 3
+/-- `which`: 0 `coll_pts`, 1 `force_pts`, 2 `bound_vecs` -/
+def collVal [Div K] [NatCast K] (which nx ny k : Nat) : K :=
+  let b := k / (3 * ((nx - 1) * (ny - 1)))
+  let q : K := dec 25 100
+  let t : K := dec 75 100
+  let h : K := dec 5 10
+  if which = 0 then (if b % 2 = 0 then q * h else t * h)
+  else if which = 1 then (if b % 2 = 0 then t * h else q * h)
+  else if b = 0 then t else if b = 1 then q else if b = 2 then -t else -q
+
 end
 end Glue
 end OAS
